@@ -99,6 +99,7 @@ class _VecPy(PyReader):
     hook_log: list = []
     ordered = None  # what the stand-in for _ordered_mul answers: {sign: {(sorted vectors): factor}}
     stub_is_vector_expr = False
+    diff_receivers: list = []
     shared_ordered = False
 
     def is_instance(self, v, names, n):
@@ -122,7 +123,19 @@ class _VecPy(PyReader):
     def hook_method(self, base, attr, args, kwargs, n):
         if isinstance(base, _Vec) and attr == "doit":
             return base
+        if isinstance(base, (T, int)) and not isinstance(base, bool) and attr == "diff" and 1 <= len(args) <= 2 and isinstance(args[0], T) and args[0].op == "var" and not kwargs \
+                and self.stub_is_vector_expr:
+            # a scalar that was BUILT here (an evaluated product) is differentiated: formally fine, but the receiver is no operand (R5's business)
+            self.diff_receivers.append(base)
+            k = args[1] if len(args) == 2 else 1
+            if not (isinstance(k, int) and not isinstance(k, bool) and k >= 0):
+                self.fail(n, "derivative of symbolic order")
+            out_ = base if isinstance(base, T) else num(base)
+            for _ in range(k):
+                out_ = op("diff", out_, args[0])
+            return out_
         if isinstance(base, _Vec) and attr == "diff" and 1 <= len(args) <= 2 and isinstance(args[0], T) and args[0].op == "var" and not kwargs:
+            self.diff_receivers.append(base)
             k = args[1] if len(args) == 2 else 1
             if isinstance(k, T) and k.op == "num" and k.val.denominator == 1:
                 k = int(k.val)
@@ -134,6 +147,8 @@ class _VecPy(PyReader):
             return _Vec(comps)
         if isinstance(base, _Prod) and attr == "func" and not kwargs:
             return self.make_product(base.cls, list(args), n)
+        if isinstance(base, _Prod) and attr == "doit" and not args:
+            return base
         if isinstance(base, tuple) and base == ("super", ) and attr in ("_eval_derivative_n_times", ):
             return SYMPY_DEFAULT
         if isinstance(base, _Vec) and attr in ("_eval_vector_dot", "_eval_vector_cross") and self.log_hooks:
@@ -185,7 +200,24 @@ class _VecPy(PyReader):
             return _Vec([op("neg", x) for x in v.comps])
         return NotImplemented
 
+    def global_value(self, n):
+        if isinstance(n, ast.Name) and n.id in ("VectorDot", "VectorCross", "VectorMixedProduct", "VectorNorm") and n.id not in self.functions:
+            return ("class", n.id)  # a product class handed on as a value: product(*operands)
+        return super().global_value(n)
+
+    def apply_value(self, fval, args, n, fns, kwargs=None):
+        if isinstance(fval, tuple) and len(fval) == 2 and fval[0] == "class" and fval[1] in ("VectorDot", "VectorCross", "VectorMixedProduct", "VectorNorm") and not kwargs:
+            return self.make_product(fval[1], list(args), n)
+        return super().apply_value(fval, args, n, fns, kwargs)
+
     def hook_binop(self, o, l, r, n):
+        # the unevaluated scalar product object `self` among numbers is its value
+        if isinstance(l, _Prod) and l.cls != "VectorCross":
+            l = self.make_product(l.cls, l.args, n)
+        if isinstance(r, _Prod) and r.cls != "VectorCross":
+            r = self.make_product(r.cls, r.args, n)
+            if isinstance(l, (T, int)) and not isinstance(l, bool) and isinstance(o, (ast.Add, ast.Sub, ast.Mult, ast.Div)):
+                return op({ast.Add: "add", ast.Sub: "sub", ast.Mult: "mul", ast.Div: "div"}[type(o)], self.scalar(l, n), r)
         lv, rv = isinstance(l, _Vec), isinstance(r, _Vec)
         if not (lv or rv):
             return NotImplemented
@@ -668,81 +700,42 @@ def _r2_key(run: Run, mod) -> None:
 
 
 def _r3(run: Run, mod) -> None:
-    t = ("t", )
-    # binary products
-    for cname, product in (("VectorDot", t_dot), ("VectorCross", t_cross)):
+    """each `_eval_derivative` of the four products EVALUATED (sa/pyreader.py) on generic vector functions of the parameter: what it returns is the formal derivative
+    of the product - whatever the shape of the code (unrolled product rule, a shared helper over the operand positions, reduce)"""
+    t = var("t")
+    table = [("VectorDot", 2, t_dot, "the derivative rule of VectorDot is not the product rule d[P(a,b)] = P(da,b) + P(a,db)"),
+             ("VectorCross", 2, t_cross, "the derivative rule of VectorCross is not the product rule d[P(a,b)] = P(da,b) + P(a,db)"),
+             ("VectorMixedProduct", 3, t_mixed, "the derivative of the mixed product is not the derivative of dot(a, cross(b, c))"),
+             ("VectorNorm", 1, t_norm, "the derivative of norm(v) is not dot(v, dv) / norm(v)")]
+    for cname, arity, product, message in table:
         c = _cls(mod, cname)
         fn = _meth(c, "_eval_derivative")
-        L, R = gvec("L", t), gvec("R", t)
-        body = [s for s in fn.body if not (isinstance(s, ast.If) and any(isinstance(x, ast.Call) and dotted(x.func) == "is_vector_expr" for x in ast.walk(s.test)))]
-        rd = VecReader({"self.lhs": L, "self.rhs": R}, cls=cname, where=f"{cname}._eval_derivative", diff_var="t")
-
-        class _R(VecReader):
-            pass
-        env = {}
-        stmts = []
-        for s in body:
-            if isinstance(s, ast.Assign) and isinstance(s.value, ast.Attribute) and dotted(s.value) in ("self.lhs", "self.rhs"):
-                env[s.targets[0].id] = L if dotted(s.value) == "self.lhs" else R
-            elif isinstance(s, ast.Assign) and dotted(s.value) == "self.args" and isinstance(s.targets[0], ast.Tuple):
-                for e, v in zip(s.targets[0].elts, (L, R)):
-                    env[e.id] = v
-            elif isinstance(s, ast.Expr) and isinstance(s.value, ast.Constant):
-                continue
-            else:
-                stmts.append(s)
-        rd = VecReader(env, cls=cname, where=f"{cname}._eval_derivative", diff_var="t")
-        got = rd.run(stmts)
-        prod = product(L, R)
-        want = [op("diff", x, var("t")) for x in prod] if isinstance(prod, list) else op("diff", prod, var("t"))
+        methods = ast.Module(body=[x for x in mod.tree.body if not isinstance(x, ast.ClassDef)] + [x for x in c.body if isinstance(x, ast.FunctionDef)], type_ignores=[])
+        ops_ = [_Vec(gvec(nm, ("t", ))) for nm in ("L", "R", "M")[:arity]]
+        rd = _VecPy(methods, f"{cname}._eval_derivative", depth_limit=8)
+        rd.stub_is_vector_expr = True
+        rd.diff_receivers = []
         run.ob("R3", f"{cname}._eval_derivative")
-        if got is None or not _eq(got, want):
-            run.violate("R3", f"{MOD}:{cname}._eval_derivative", mod, fn, f"the derivative rule of {cname} is not the product rule d[P(a,b)] = P(da,b) + P(a,db)")
+        try:
+            got = rd.call("_eval_derivative", [_Prod(cname, ops_), t])
+        except Raised as r_:
+            run.violate("R3", f"{MOD}:{cname}._eval_derivative", mod, fn, f"{message} (raises {r_.exc})")
+            continue
+        # R5 (termination), seen by the evaluation: whatever is differentiated on the way is an operand of the product - never something built here
+        run.ob("R5", f"{cname}._eval_derivative:receivers-are-operands")
+        foreign = [x for x in rd.diff_receivers if not any(x is o for o in ops_)]
+        if foreign:
+            run.violate("R5", f"{MOD}:{cname}._eval_derivative:differentiates-a-built-expression", mod, fn,
+                        f"{cname}._eval_derivative calls diff() on an expression it has just built from the operands instead of on the operands: when that expression evaluates back "
+                        f"to a {cname} (dot(a, cross(b, c)) is the mixed product again) the differentiation never terminates")
+        prod = product(*[o.comps for o in ops_])
+        want = [op("diff", x, t) for x in prod] if isinstance(prod, list) else op("diff", prod, t)
+        gotv = got.comps if isinstance(got, _Vec) else (num(got) if isinstance(got, int) and not isinstance(got, bool) else got)
+        ok = isinstance(gotv, (list, T)) and isinstance(gotv, list) == isinstance(want, list) and _eq(gotv, want)
+        if not ok:
+            run.violate("R3", f"{MOD}:{cname}._eval_derivative", mod, fn, message)
         else:
             run.sample({"rule": f"{cname}._eval_derivative", "product_rule": True})
-    # mixed product
-    c = _cls(mod, "VectorMixedProduct")
-    fn = _meth(c, "_eval_derivative")
-    a, b, cc = gvec("a", t), gvec("b", t), gvec("c", t)
-    env = {}
-    stmts = []
-    for s in fn.body:
-        if isinstance(s, ast.If) and any(isinstance(x, ast.Call) and dotted(x.func) == "is_vector_expr" for x in ast.walk(s.test)):
-            continue
-        if isinstance(s, ast.Assign) and dotted(s.value) == "self.args" and isinstance(s.targets[0], ast.Tuple) and len(s.targets[0].elts) == 3:
-            for e, v in zip(s.targets[0].elts, (a, b, cc)):
-                env[e.id] = v
-        elif isinstance(s, ast.Expr) and isinstance(s.value, ast.Constant):
-            continue
-        else:
-            stmts.append(s)
-    rd = VecReader(env, cls="VectorMixedProduct", where="VectorMixedProduct._eval_derivative", diff_var="t")
-    got = rd.run(stmts)
-    run.ob("R3", "VectorMixedProduct._eval_derivative")
-    if got is None or not _eq(got, op("diff", t_mixed(a, b, cc), var("t"))):
-        run.violate("R3", f"{MOD}:VectorMixedProduct._eval_derivative", mod, fn, "the derivative of the mixed product is not the derivative of dot(a, cross(b, c))")
-    # norm
-    c = _cls(mod, "VectorNorm")
-    fn = _meth(c, "_eval_derivative")
-    v = gvec("v", t)
-    rets = [s for s in fn.body if isinstance(s, ast.Return)]
-    run.ob("R3", "VectorNorm._eval_derivative")
-    ok = False
-    if rets:
-        env = {"done": t_norm(v)}
-        for s in fn.body:
-            if isinstance(s, (ast.Assign, ast.AnnAssign)):
-                tgt = s.targets[0] if isinstance(s, ast.Assign) else s.target
-                if isinstance(tgt, ast.Name) and norm(s.value) == "done.args[0]":
-                    env[tgt.id] = v
-        rd = VecReader(env, cls="VectorNorm", where="VectorNorm._eval_derivative", diff_var="t")
-        try:
-            got = rd.ev(rets[-1].value)
-            ok = _eq(got, op("diff", t_norm(v), var("t")))
-        except AnalysisError:
-            ok = False
-    if not ok:
-        run.violate("R3", f"{MOD}:VectorNorm._eval_derivative", mod, fn, "the derivative of norm(v) is not dot(v, dv) / norm(v)")
 
 
 def _r3_n_times(run: Run, mod) -> set:
@@ -914,7 +907,9 @@ def _r5_termination(run: Run, mod, n_times_decided=frozenset()) -> None:
         f = next((m_ for m_ in c.body if isinstance(m_, ast.FunctionDef) and m_.name == "_eval_derivative"), None)
         if f is None:
             continue
-        for call in [x for x in ast.walk(f) if isinstance(x, ast.Call) and isinstance(x.func, ast.Attribute) and x.func.attr == "diff"]:
+        helpers = [h for h in mod.tree.body if isinstance(h, ast.FunctionDef)
+                   and any(isinstance(x, ast.Call) and isinstance(x.func, ast.Name) and x.func.id == h.name for x in ast.walk(f))]
+        for call in [x for scope in [f] + helpers for x in ast.walk(scope) if isinstance(x, ast.Call) and isinstance(x.func, ast.Attribute) and x.func.attr == "diff"]:
             n += 1
             recv = call.func.value
             run.ob("R5", f"{c.name}._eval_derivative:{norm(call, 40)}")
@@ -940,7 +935,7 @@ def _r5_termination(run: Run, mod, n_times_decided=frozenset()) -> None:
             if why:
                 run.violate("R5", f"{MOD}:{c.name}._eval_derivative:{norm(call, 50)}", mod, call,
                             f"{c.name}._eval_derivative {why}: differentiating such an expression with a parameter-dependent operand never terminates")
-    run.floor("R5", n, 8, "diff() calls inside _eval_derivative methods")
+    run.floor("R5", n, 3, "diff() calls inside _eval_derivative methods and their helpers (the four products are also decided by evaluation, R3)")
     # scalar-valued products are ordinary commuting scalars for SymPy: without the declaration is_commutative is None and SymPy keeps
     # dot(a, b)*dot(c, d) and dot(c, d)*dot(a, b) apart, refuses to solve equations containing them, and orders factors by creation history
     for c in classes.values():
